@@ -60,6 +60,29 @@ fn check_incremental(ctx: &mut Ctx, rng: &mut Rng, words: &[String]) {
 }
 
 fn check_built(ctx: &mut Ctx, e: &Exec, words: &[String], class: &str) {
+    // the same command with an environment of its own is shown with assignments in front of the very same words
+    // (whatever the caller's own environment holds, also names and values that are not text)
+    if words.len() % 4 == 1 {
+        use std::os::unix::ffi::OsStringExt;
+        std::env::set_var("VERIF_C19_ODD", std::ffi::OsString::from_vec(b"Andr\xe9 \xff".to_vec()));
+        let plain = e.to_cmdline_lossy();
+        let ee = e.clone().env("VERIF_C19_K", "v 1").env_remove("VERIF_C19_GONE");
+        let shown = std::panic::catch_unwind(std::panic::AssertUnwindSafe(|| (ee.to_cmdline_lossy(), format!("{:?}", ee))));
+        std::env::remove_var("VERIF_C19_ODD");
+        ctx.count("commands_with_an_environment_of_their_own_shown", 1);
+        match shown {
+            Err(_) => {
+                ctx.violation(&format!("C19/panic/{}", class), "showing a command that has an environment of its own panicked", J::obj().set("argv", J::arr_s(words)));
+                return;
+            }
+            Ok((l, d)) => {
+                if !l.ends_with(&plain) || !d.contains(&plain) {
+                    ctx.violation(&format!("C19/environment-prefix/{}", class), "with an environment of its own the command is not shown as assignments followed by the same program and arguments", J::obj().set("argv", J::arr_s(words)).set("plain", J::s(&plain)).set("with_env", J::s(&l)));
+                    return;
+                }
+            }
+        }
+    }
     let out = ctx.work.join("c19.out");
     let lossy = e.to_cmdline_lossy();
     let dbg = format!("{:?}", e);
@@ -107,8 +130,15 @@ fn check_command_position(ctx: &mut Ctx, rng: &mut Rng) {
     if rng.chance(300) {
         prog = format!("{}={}", *rng.pick(&["FOO", "a", "PATH", "x1"]), prog);
     }
-    // never a shell builtin or keyword (`:`, `.`, `[`, `!`, `{` ... would not be looked up on PATH at all)
+    // never a shell builtin (`:`, `.`, `cd`, `echo` ... are not looked up on PATH at all, however they are quoted: a
+    // platform fact) ...
     prog = format!("p{}", prog);
+    // ... but a program may well be called like one of the shell's reserved words: those are ordinary command names
+    // once quoted, and it is the rendering's job to see to that
+    if rng.chance(120) {
+        prog = rng.pick(&["if", "then", "else", "elif", "fi", "do", "done", "case", "esac", "while", "until", "for", "in"]).to_string();
+        ctx.count("programs_named_like_a_reserved_word", 1);
+    }
     let link = dir.join(&prog);
     if std::fs::hard_link(&ctx.vchild, &link).is_err() && std::fs::copy(&ctx.vchild, &link).is_err() {
         return;
